@@ -473,6 +473,7 @@ type cmdCase struct {
 	Opts  []bool    `json:"opts"`
 	Q     []int     `json:"q"`
 	BadFlag []int   `json:"badflag"`
+	Since   int     `json:"since"`
 }
 
 // fakeCli is a docker CLI of which only Client() is ever asked.
@@ -499,6 +500,14 @@ func probeCmd(tr *Trace, scn int, raw json.RawMessage) {
 	}
 	args := []string{"query", "--start", spellT(in.Start, 0), "--end=" + spellT(in.End, 1), "--limit", strconv.Itoa(in.Limit),
 		fmt.Sprintf("--timestamp=%v", in.Opts[0]), fmt.Sprintf("--container=%v", in.Opts[1]), fmt.Sprintf("--color=%v", in.Opts[2]), S(in.Q)}
+	if in.Since > 0 {
+		// the window as --end and --since; the duration spelled in seconds or in minutes and seconds, by turns
+		d := fmt.Sprintf("%ds", in.Since)
+		if scn%2 == 0 && in.Since >= 60 && in.Since%60 != 0 {
+			d = fmt.Sprintf("%dm%ds", in.Since/60, in.Since%60)
+		}
+		args[1], args[2] = "--since", d
+	}
 	if in.Limit < 0 && scn%3 == 0 {
 		args = append(args[:4:4], args[6:]...) // the default limit is "no limit"
 	}
